@@ -520,6 +520,9 @@ def run(ctx):
         "fx_meshshell": ("meshshell", '<mujoco><default><default class="c"><geom shellinertia="true"/></default></default>'
                                       '<asset><mesh name="m" vertex="0 0 0 1 0 0 0 1 0 0 0 1" face="0 2 1 0 1 3 0 3 2 1 2 3"/></asset><worldbody><body><joint/>'
                                       '<geom class="c" type="mesh" mesh="m" shellinertia="false" contype="0" conaffinity="0"/></body></worldbody></mujoco>'),
+        "fx_keylast": (None, '<mujoco><worldbody><body pos="0 0 1"><freejoint/><geom size="0.1"/><body pos="0.3 0 0"><joint name="h" axis="0 1 0"/>'
+                             '<geom size="0.05"/></body></body></worldbody><keyframe><key name="k" qpos="0 0 1 1 0 0 0 0.25"/>'
+                             '<key name="v" qvel="0 0 0 0 0 0 0.5"/></keyframe></mujoco>'),
         "fx_nearint": (None, '<mujoco><worldbody><body pos="1.0000000000001 0 0"><joint/><geom size="0.1"/></body></worldbody></mujoco>'),
         "fx_neardef": (None, '<mujoco><worldbody><body><joint armature="1e-16"/><geom size="0.1"/></body></worldbody></mujoco>'),
     }
